@@ -393,6 +393,19 @@ def generate(sess):
                 if b:
                     container_faults(sess, suite, typ, b, thorough)
             primitives(sess, suite, prim, thorough)
+            # the 16-bit thresholds at and beyond every byte / varint boundary survive both forms of every type that records one
+            if (n, t) == (3, 2):
+                pkv, kpv = vals["pubkeypackage"], vals["keypackage"]
+                pf = pkp_fields(pkv[0][2:]) if pkv[0].startswith("v=") else None
+                kf = kp_fields(kpv[0][2:]) if kpv[0].startswith("v=") else None
+                for m in (127, 128, 255, 256, 300, 16383, 16384, 65535):
+                    if pf:
+                        v = mk_pkp(pf["vshares"], pf["vk"], m)
+                        roundtrip(sess, suite, "pubkeypackage", "v=" + v, v)
+                    if kf:
+                        v = mk_kp(kf["id"], kf["share"], kf["Y"], kf["vk"], m)
+                        roundtrip(sess, suite, "keypackage", "v=" + v, v)
+                    sess.count("threshold-boundary")
         sess.count("suite:" + suite)
 
 
